@@ -71,7 +71,7 @@ func outCount() int                              { return 0 }
 func outFirst() any                              { return nil }
 func outLast() any                               { return nil }
 
-//@ sweep safety C04 exclude=pathParserImpl,pathNewParser,pathParse,pathErrorMessage,pathlex1,pathTokname,pathStatname,pathSymType
+//@ sweep safety C04 exclude=pathParserImpl,pathNewParser,pathParse,pathSymType
 
 // Parse: result shape (C04). The goyacc driver (pathParse and friends) is
 // generated code and is trusted: it calls Lex/Error/setResult/setPred of the
@@ -385,3 +385,19 @@ func outLast() any                               { return nil }
 //@ props C03
 //@ pure
 //@ ensures [C03] continue-characters: r0 == xid.Continue(ch)
+
+// The three table look-ups of the goyacc driver that are ordinary functions:
+// with the token tables known (constant tables, read from the source on every
+// run) they never index out of range, for any token number the lexer returns.
+// pathlex1 takes the lexer as the driver gives it: the module's own *lexer in
+// its representation invariant.
+
+//@ func pathlex1
+//@ props C04
+//@ requires [C04] the-modules-lexer: present(lex) && is[*lexer](lex) && lval != nil
+//@ requires [C04] inv-buffer: as[*lexer](lex).srcPos >= 0 && as[*lexer](lex).srcPos <= as[*lexer](lex).srcEnd && as[*lexer](lex).srcEnd == len(as[*lexer](lex).srcBuf) && as[*lexer](lex).srcEnd <= 4611686018427387903 && as[*lexer](lex).lastCharLen >= 0 && as[*lexer](lex).lastCharLen <= as[*lexer](lex).srcPos && as[*lexer](lex).lastCharLen <= 4
+//@ requires [C04] inv-token: as[*lexer](lex).tokPos >= -1 && as[*lexer](lex).tokPos <= as[*lexer](lex).srcEnd && as[*lexer](lex).tokEnd <= as[*lexer](lex).srcEnd
+//@ modifies as[*lexer](lex).*, lval.str
+//@ ensures [C04] inv-buffer-kept: as[*lexer](lex).srcPos >= 0 && as[*lexer](lex).srcPos <= as[*lexer](lex).srcEnd && as[*lexer](lex).srcEnd == len(as[*lexer](lex).srcBuf) && as[*lexer](lex).srcEnd <= 4611686018427387903 && as[*lexer](lex).lastCharLen >= 0 && as[*lexer](lex).lastCharLen <= as[*lexer](lex).srcPos && as[*lexer](lex).lastCharLen <= 4
+//@ ensures [C04] inv-token-kept: as[*lexer](lex).tokPos >= -1 && as[*lexer](lex).tokPos <= as[*lexer](lex).srcEnd && as[*lexer](lex).tokEnd <= as[*lexer](lex).srcEnd
+//@ loop 1 invariant [C04] in-table: i >= 0
